@@ -496,6 +496,33 @@ def y5(prog):
                         break
             if thrower is None:
                 continue
+            # name the site by the function that actually raises: helpers of the scanner/parser file that merely forward to one
+            # throwing callee are transparent (extracting `push_subquery (x)` around `parse_subquery (x)` is the same finding)
+            def canonical(k, depth=0):
+                g = prog.funcs.get(k)
+                nm = g["q"] if g else k
+                stem = lambda p_: os.path.basename(p_ or "").split(".")[0]        # lexer.cc / lexer.ll, parser.cc / parser.yy
+                if g is None or depth > 4 or stem(g.get("file")) != stem(f.get("file")) or g.get("body") is None:
+                    return nm
+                sites = mt.body_sites(g["body"], g.get("inits"))
+                if any(s_[0] == "throw" for s_ in sites):
+                    return nm
+                cands = set()
+                for s_ in sites:
+                    if s_[0] != "call":
+                        continue
+                    ks, ex = mt.callee_keys(s_[1])
+                    if ex:
+                        return nm
+                    for k2 in ks:
+                        if mt.throws(k2):
+                            cands.add(canonical(k2, depth + 1))
+                return cands.pop() if len(cands) == 1 else nm
+            if not ext:
+                for k in keys:
+                    if mt.throws(k):
+                        thrower = canonical(k)
+                        break
             short_name = thrower.split("::")[-1].split("(")[0]
             if fn == "yyparse" and short_name == "yylex":
                 continue      # the scanner's own sites are listed under yylex
